@@ -124,6 +124,29 @@ def check(ctx):
            "siblings extract and normalise the compared values identically" if same else
            f"filter and filter_out compare different things: {a['extract']}, {a['values']} vs {b['extract']}, {b['values']}",
            clause="filter and filter_out partition the items")
+    from ..pattern import pmatch as _pm3
+    ctx.rule("SEQ", "list operations produce the list operation's item sequence")
+    seqs = {
+        "__add__": ("itertools.chain({S}, {P1})", "receiver's items, then the other list's"),
+        "extend": ("itertools.chain({S}, {P1})", "receiver's items, then the other list's"),
+        "append": ("itertools.chain({S}, [{P1}])", "receiver's items, then the new item"),
+        "reverse": ("reversed({S})", "items in reverse order"),
+    }
+    for name, (pat, what) in seqs.items():
+        fn = repo.fn(f"{LOD}.{name}")
+        P = {"S": fn.params[0], "P1": fn.params[1] if len(fn.params) > 1 else ""}
+        yf = [n for n in body_nodes(fn.node) if isinstance(n, ast.YieldFrom)]
+        ok = len(yf) == 1 and _pm3(pat.format(**P), yf[0].value) is not None and not yields_of(fn)
+        ctx.ob("SEQ", fn, norm(yf[0].value) if yf else f"yield from {pat.format(**P)}", yf[0] if yf else fn.node, ok,
+               f"{name} yields the {what}" if ok else f"{name} does not yield exactly the {what}",
+               clause="produce the same item sequence as the same operation on a Python list")
+    mul = repo.fn(f"{LOD}.__mul__")
+    loops_m = [n for n in ast.walk(mul.node) if isinstance(n, ast.For)]
+    ok = len(loops_m) == 1 and _pm3(f"range({mul.params[1]})", loops_m[0].iter) is not None and \
+        any(isinstance(x, ast.YieldFrom) and norm(x.value) == mul.params[0] for x in ast.walk(loops_m[0]))
+    ctx.ob("SEQ", mul, "for i in range(other): yield from self", loops_m[0] if loops_m else mul.node, ok,
+           "the items are repeated `other` times in order" if ok else "__mul__ does not repeat the whole list `other` times",
+           clause="produce the same item sequence as the same operation on a Python list")
     # ------------------------------------------------- SIB-3 / GRD-negslice
     for name in ("head", "tail", "sample"):
         clamp_check(ctx, repo.fn(f"{LOD}.{name}"), {"len(self)"}, "head/tail take min(n, len) items")
